@@ -212,3 +212,69 @@ def wf_graphs(rnd, n_vars, extra, roles=(':R', ':S'),
     for k in range(0, extra + n_vars):
         for combo in itertools.combinations(opts, k):
             yield vs, inst + list(combo)
+
+
+# ---- roles drawn from a model's own table ------------------------------------------------------------
+
+def regex_samples(pattern):
+    """a few strings of the language of a (simple) regular expression: for every repeat the minimum
+    and one more, for every class its first and last member, every alternative once"""
+    try:
+        import re._parser as sre_parse
+        import re._constants as sre_c
+    except ImportError:  # pragma: no cover
+        import sre_parse
+        import sre_constants as sre_c
+
+    def cls(items):
+        out = []
+        for op, av in items:
+            if op is sre_c.LITERAL:
+                out.append(chr(av))
+            elif op is sre_c.RANGE:
+                out += [chr(av[0]), chr(av[1])]
+            elif op is sre_c.CATEGORY:
+                out += {'CATEGORY_DIGIT': ['0', '9'], 'CATEGORY_WORD': ['a', '_'], 'CATEGORY_SPACE': [' ']}.get(str(av), ['x'])
+        return out[:1] + out[-1:] if out else ['x']
+
+    def seq(items):
+        outs = ['']
+        for op, av in items:
+            if op is sre_c.LITERAL:
+                alts = [chr(av)]
+            elif op is sre_c.IN:
+                alts = cls(av)
+            elif op is sre_c.ANY or op is sre_c.NOT_LITERAL:
+                alts = ['x', '-']
+            elif op is sre_c.SUBPATTERN:
+                alts = seq(av[3])
+            elif op is sre_c.BRANCH:
+                alts = [s for b in av[1] for s in seq(b)]
+            elif op in (sre_c.MAX_REPEAT, sre_c.MIN_REPEAT):
+                lo, hi, sub = av
+                body = seq(sub)
+                alts = []
+                for n in sorted({lo, min(lo + 1, hi if hi is not sre_c.MAXREPEAT else lo + 1)}):
+                    alts += [''] if n == 0 else [b * n for b in body[:2]]
+            elif op is sre_c.AT:
+                alts = ['']
+            else:
+                alts = ['x']
+            alts = list(dict.fromkeys(alts))[:3]
+            outs = [o + a for o in outs for a in alts][:12]
+        return outs
+    try:
+        return list(dict.fromkeys(seq(list(sre_parse.parse(pattern)))))
+    except Exception:
+        return []
+
+
+def model_roles(model, limit=400):
+    """roles the model defines, drawn from its own table (every entry, patterns instantiated)"""
+    import re
+    out = []
+    for key in getattr(model, 'roles', {}) or {}:
+        for s in regex_samples(key):
+            if re.match('^(?:%s)$' % key, s):
+                out.append(s)
+    return list(dict.fromkeys(out))[:limit]
